@@ -308,6 +308,24 @@ pub fn generate(seed: u64, tier: &str, sink: &mut Sink) {
         let o = base_oracle(&case, &out, "header-map-capacity");
         emit(sink, vec!["kind=header-map-capacity".into()], &case, &out, o);
     }
+    // interim responses without end: a peer that answers a request that carried content with `100 Continue` heads
+    // for ever (each a complete head, so no line or header limit is ever reached) — the client hands the first
+    // one to the caller, it does not read on (seed C05-seed9). POST + one segment = the request carries content.
+    {
+        let mut w = vec![];
+        while w.len() < endless_len {
+            w.extend_from_slice(b"HTTP/1.1 100 Continue\r\n\r\n");
+        }
+        for method in ["POST", "PUT", "GET"] {
+            let case = RespCase { method: method.into(), max_headers: 100, segs: vec![Seg::Data(w.clone())], reads: Reads::Sizes(vec![16, 16]) };
+            let out = run_resp(&case);
+            let mut o = base_oracle(&case, &out, "interim-responses");
+            if o.is_ok() && out.pulled > 2 * cap {
+                o = Err(("unbounded-input-interim-responses".to_string(), format!("{} bytes were pulled from a peer that sends interim responses for ever (bound {})", out.pulled, 2 * cap)));
+            }
+            emit(sink, vec!["kind=endless".into(), "construct=interim-responses".into()], &case, &out, o);
+        }
+    }
     // an endless chunk-size line
     let mut w = CHUNKED_HEAD.to_vec();
     w.extend(std::iter::repeat(b'1').take(endless_len));
